@@ -415,6 +415,24 @@ func repeatedEntryScenarios() []refScenario {
 	return out
 }
 
+// oddSymbolScenarios: symbols with an empty component (a..b: the implicit parents are "a" and "a."), capitals, spaces,
+// quotes, non-ASCII letters; every group tallied in JSON v1 has its row in the table and its item in JSON v2.
+func oddSymbolScenarios() []refScenario {
+	var out []refScenario
+	for i, syms := range [][]string{{"a..b"}, {"a..b", "a.c"}, {"x..", "x.y"}, {"A.B", "a.b"}, {"with space.in it"}, {"q\"uote.b\\s"}, {"ünï.cödé", "ünï"}, {"a...b"}} {
+		sc := refScenario{ID: fmt.Sprintf("os%d", i+1), Class: "odd-symbols"}
+		refs := []string{"refs/heads/main", "refs/tags/v1"}
+		for k, sy := range syms {
+			p := fmt.Sprintf("refs/g%d", k)
+			refs = append(refs, p+"/x", p+"/y")
+			sc.Config = append(sc.Config, cfgEntry{Scope: "local", Section: "refgroup", Sub: sy, Key: "include", Value: sp(p)})
+		}
+		sc.Refs = conflictFree(refs)
+		out = append(out, sc)
+	}
+	return out
+}
+
 // prefixSymbolScenarios: reference groups whose symbols are prefixes of one another AS STRINGS without being
 // ancestors (rel / release, a.b / a.bc, o / other-like, tags / tags-old), in both configuration orders, with the
 // shorter-named group empty, sparse or as full as the longer-named one.
@@ -616,10 +634,12 @@ func checkC07(c *Ctx) {
 		scs = append(scs, forestScenarios(rng, 40)...)
 		scs = append(scs, builtinBoundaryScenarios()...)
 		scs = append(scs, prefixSymbolScenarios()...)
+		scs = append(scs, oddSymbolScenarios()...)
 	} else {
 		scs = append(scs, forestScenarios(rng, 1000)...)
 		scs = append(scs, builtinBoundaryScenarios()...)
 		scs = append(scs, prefixSymbolScenarios()...)
+		scs = append(scs, oddSymbolScenarios()...)
 	}
 	// however deeply nested: chains of 1..24 groups
 	for d := 1; d <= 24; d++ {
